@@ -19,13 +19,14 @@ def _cases(draw, max_size=9):
     s = draw(gen.score_sets(min_pos=1, min_neg=1, max_size=max_size,
                             modes=("grid", "grid", "dyadic", "distinct", "distinct", "int"),
                             easy=False))
-    ez = st.one_of(st.just(0), st.integers(1, 4), st.integers(5, 40))
+    ez = st.one_of(st.just(0), st.integers(1, 4), st.integers(5, 40), st.integers(110, 127))
     k, m = draw(ez), draw(ez)
     T = len(s["pos"]) + len(s["neg"]) + k + m
     extra = draw(st.lists(st.floats(min_value=0.0, max_value=1.0), min_size=2, max_size=6))
     lims = sorted(draw(st.lists(st.floats(min_value=0.0, max_value=1.0), min_size=2, max_size=2)))
     return dict(s=s, k=k, m=m, repeated=draw(st.booleans()), gap=draw(st.sampled_from([1.0, 0.5, 10.0])),
                 extra=extra, lims=lims, virtual_first=draw(st.booleans()), via_labels=draw(st.booleans()),
+                easy_kind=draw(st.sampled_from(["py", "py", "py", "int8", "uint8", "int32", "uint64"])),
                 thr_extra=draw(st.lists(st.floats(min_value=0.0, max_value=1.0), max_size=3)),
                 dtype=draw(st.sampled_from([None, None, "float32", "longdouble"])) if s["mode"] in ("grid", "dyadic") else None)
 
@@ -68,14 +69,18 @@ def check(case):
             mp, mn = pos + above[:k], neg + below[:m]
         else:
             mp, mn = pos + below[:k], neg + above[:m]
+        # the easy counts as Python ints or as the NumPy integers a count computed with NumPy is (narrow,
+        # unsigned); the values fit their type
+        ek = case.get("easy_kind", "py")
+        kk, mm = (k, m) if ek == "py" else (np.dtype(ek).type(k), np.dtype(ek).type(m))
         if case.get("via_labels"):
             # the documented alternative constructor
             lab = np.asarray([1] * len(pos) + [0] * len(neg))
-            V = Scores.from_labels(lab, np.asarray(pos + neg, dtype=dt), pos_label=1, nb_easy_pos=k,
-                                   nb_easy_neg=m, score_class=sc, equal_class=ec)
+            V = Scores.from_labels(lab, np.asarray(pos + neg, dtype=dt), pos_label=1, nb_easy_pos=kk,
+                                   nb_easy_neg=mm, score_class=sc, equal_class=ec)
         else:
-            V = Scores(np.asarray(pos, dtype=dt), np.asarray(neg, dtype=dt), nb_easy_pos=k,
-                       nb_easy_neg=m, score_class=sc, equal_class=ec)
+            V = Scores(np.asarray(pos, dtype=dt), np.asarray(neg, dtype=dt), nb_easy_pos=kk,
+                       nb_easy_neg=mm, score_class=sc, equal_class=ec)
         M = Scores(np.asarray(mp, dtype=dt), np.asarray(mn, dtype=dt), score_class=sc, equal_class=ec)
         cv, cmm = V.cm(thr).matrix, M.cm(thr).matrix
         if not np.array_equal(cv, cmm):
